@@ -131,3 +131,133 @@ func init() {
 		}
 	}
 }
+
+// unmark.propagatedagain (C13): before it clears marks, the driver runs
+// propagation steps over the mark array (functions that are handed the []bool
+// and set entries: the values stored into live locals, the arguments of calls
+// whose result is live). Clearing can take away what such a step had marked
+// for a statement that stays (a store into a live local is not a root, so the
+// statement re-marker does not look at it). Every propagation step the driver
+// runs before the clearing must run again after it.
+func (c *Ctx) runUnmarkPropagatedAgain(r *Report, rule string, inPkg func(string) bool) {
+	n := 0
+	sets := func(fi *funcInfo, val string) bool {
+		found := false
+		ast.Inspect(fi.Decl.Body, func(m ast.Node) bool {
+			as, ok := m.(*ast.AssignStmt)
+			if !ok || len(as.Lhs) != 1 || len(as.Rhs) != 1 {
+				return true
+			}
+			if ix, ok := as.Lhs[0].(*ast.IndexExpr); ok {
+				if t, ok := fi.Pkg.Info.TypeOf(ix.X).Underlying().(*types.Slice); ok && isBoolType(t.Elem()) {
+					if v, ok := as.Rhs[0].(*ast.Ident); ok && v.Name == val {
+						found = true
+					}
+				}
+			}
+			return true
+		})
+		return found
+	}
+	for _, fn := range c.allFuncs() {
+		if !inPkg(fn.Pkg.Rel) || fn.Obj == nil || fn.Decl.Body == nil || !fn.Obj.Exported() {
+			continue
+		}
+		info := fn.Pkg.Info
+		type step struct {
+			f   *types.Func
+			idx int
+			pos ast.Node
+		}
+		var steps []step
+		clearIdx := -1
+		for i, st := range fn.Decl.Body.List {
+			ast.Inspect(st, func(k ast.Node) bool {
+				if _, isLit := k.(*ast.FuncLit); isLit {
+					return false
+				}
+				call, ok := k.(*ast.CallExpr)
+				if !ok {
+					return true
+				}
+				f := calleeOf(info, call)
+				if f == nil {
+					return true
+				}
+				fi := c.funcByObj(f)
+				if fi == nil || fi.Pkg.Rel != fn.Pkg.Rel || fi == fn {
+					return true
+				}
+				takesMarks := false
+				for _, a := range call.Args {
+					if t, ok := info.TypeOf(a).Underlying().(*types.Slice); ok && isBoolType(t.Elem()) {
+						takesMarks = true
+					}
+				}
+				if !takesMarks {
+					return true
+				}
+				reachClear, reachSet := false, false
+				for g := range c.reach(f) {
+					gi := c.funcByObj(g)
+					if gi == nil || gi.Decl.Body == nil || gi.Pkg.Rel != fn.Pkg.Rel {
+						continue
+					}
+					if sets(gi, "false") {
+						reachClear = true
+					}
+					if sets(gi, "true") {
+						reachSet = true
+					}
+				}
+				// a step that is handed a marking callback instead of setting entries itself
+				for _, a := range call.Args {
+					if fs, ok := info.TypeOf(a).Underlying().(*types.Signature); ok && fs.Params().Len() == 1 && irTypeName(fs.Params().At(0).Type()) == "ExpressionHandle" {
+						reachSet = true
+					}
+				}
+				if reachClear && clearIdx < 0 {
+					clearIdx = i
+				}
+				if reachSet && !reachClear {
+					steps = append(steps, step{f, i, call})
+				}
+				return true
+			})
+		}
+		if clearIdx < 0 {
+			continue
+		}
+		seen := map[*types.Func]bool{}
+		for _, s := range steps {
+			if s.idx >= clearIdx || seen[s.f] {
+				continue
+			}
+			seen[s.f] = true
+			n++
+			cons := fn.id() + ":" + s.f.Name()
+			again := false
+			for _, t := range steps {
+				if t.f == s.f && t.idx > clearIdx {
+					again = true
+				}
+			}
+			if again {
+				r.ok(rule, cons, c.pos(s.pos.Pos()), "")
+			} else {
+				r.viol(rule, cons, c.pos(s.pos.Pos()), fn.id()+" runs the propagation step "+s.f.Name()+" over the marks before it clears marks and not again afterwards: what the step had marked for a statement that stays (the value of a store into a live local) can be cleared and is then swept")
+			}
+		}
+	}
+	r.inst(rule, n)
+}
+
+func init() {
+	dumpers["propagain"] = func(c *Ctx, parts []string) {
+		r := newReport("dump")
+		c.runUnmarkPropagatedAgain(r, "unmark.propagatedagain", inPkgs("dxil/internal/passes", "ir"))
+		for _, o := range r.Obs {
+			println(o.Verdict, o.Construct, o.Pos)
+		}
+	}
+}
